@@ -354,7 +354,7 @@ func ruleChainLoad(c *Ctx, rule string) {
 // ---- CHAIN.PARSE-ORDER -------------------------------------------------------------
 
 func ruleParseOrder(c *Ctx, rule string) {
-	fn := c.P.Func("config", "", "parsePlugins")
+	fn := c.P.Anchor("parsePlugins")
 	if fn == nil {
 		c.R.Fatalf("ANCHOR-UNRESOLVED: config.parsePlugins")
 		return
@@ -413,10 +413,10 @@ func ruleParseOrder(c *Ctx, rule string) {
 			return
 		}
 		// the ranged collection is the parameter, the item map is cast.ToStringMap(list[i]) with exactly one key
-		if v, _ := histEq(st, regexp.MustCompile(`^len\(github\.com/spf13/cast\.ToStringMap(@(?:[\w$]+·)?t\d+)?\(\$0\[` + idxRe + `\]\)\)$`), "1"); v != 1 {
+		if v, _ := histEq(st, regexp.MustCompile(`^len\(github\.com/spf13/cast\.ToStringMap(@(?:[\w$]+·)?t\d+)?\(\$0\[`+idxRe+`\]\)\)$`), "1"); v != 1 {
 			addp("item appended without len(item) == 1 being established")
 		}
-		if v, _ := histFact(st, "nil", regexp.MustCompile(`^github\.com/spf13/cast\.ToStringMap(@(?:[\w$]+·)?t\d+)?\(\$0\[` + idxRe + `\]\)$`)); v != 0 {
+		if v, _ := histFact(st, "nil", regexp.MustCompile(`^github\.com/spf13/cast\.ToStringMap(@(?:[\w$]+·)?t\d+)?\(\$0\[`+idxRe+`\]\)$`)); v != 0 {
 			addp("item appended without the string-map conversion being checked non-nil")
 		}
 		if ph, ok := app.Call.Args[0].(*ssa.Phi); !ok || ph.Block().Index != hdr {
